@@ -422,3 +422,56 @@ func HeldString(st LockState) string {
 	sort.Strings(ks)
 	return "{" + strings.Join(ks, ", ") + "}"
 }
+
+// LockPairing checks, for every explicit Lock/RLock call in fn, that the mutex is released on every path to a return:
+// either a deferred matching unlock is registered on every path from the acquisition, or every path from the acquisition
+// to a return passes a matching Unlock call. Returns one finding per acquisition: (instr, ok, detail).
+type PairFinding struct {
+	Instr  ssa.Instruction
+	Mutex  string
+	OK     bool
+	Detail string
+}
+
+func LockPairing(fn *ssa.Function) []PairFinding {
+	var out []PairFinding
+	Instrs(fn, func(in ssa.Instruction) {
+		call, ok := in.(*ssa.Call)
+		if !ok {
+			return
+		}
+		addr, mode := lockOp(&call.Call)
+		if mode <= 0 {
+			return
+		}
+		path := Path(addr)
+		isRelease := func(x ssa.Instruction) bool {
+			var cc *ssa.CallCommon
+			switch y := x.(type) {
+			case *ssa.Call:
+				cc = &y.Call
+			case *ssa.Defer:
+				cc = &y.Call
+			default:
+				return false
+			}
+			a2, m2 := lockOp(cc)
+			return m2 == -mode && Path(a2) == path
+		}
+		q := &PathQuery{Fn: fn, FromAfter: []ssa.Instruction{in}, Target: func(x ssa.Instruction) bool { _, ok := x.(*ssa.Return); return ok }, CutInstr: isRelease}
+		w := q.Find()
+		f := PairFinding{Instr: in, Mutex: shortLockPath(path), OK: w == nil}
+		if w != nil {
+			f.Detail = "path " + w.String() + " reaches a return with the mutex still held"
+		}
+		out = append(out, f)
+	})
+	return out
+}
+
+func shortLockPath(p string) string {
+	if i := strings.LastIndex(p, ":"); i >= 0 {
+		return p[i+1:]
+	}
+	return p
+}
